@@ -62,6 +62,9 @@ def gen_session(rng):
              "'|a(b|", '"str(ing"', "(car '())", "(undefined-zz)", "(vector-ref (vector 1) 5)", "(+ 1 2) ; comment (", "(list 1 (quote (2 . 3)) #(4))",
              # forms rejected before evaluation: what stands before them in the same submission has already been evaluated
              "(if)", "(lambda)", "(let ((x)) x)", ")", "(if)", ")",
+             # an import declaration AFTER other forms: rejected wherever it stands in its submission (the import part of a
+             # session is over once anything else has been evaluated)
+             "(import (only (scheme base) car))", "(import (scheme write))", "(import (only (scheme base) car))",
              # macro definitions and their uses in LATER submissions (a definition made before a failing form of the same
              # submission stays made)
              "(define-syntax twice-zz (syntax-rules () ((twice-zz e) (* 2 e))))", "(twice-zz 21)", "(twice-zz (+ 1 2))",
